@@ -108,7 +108,33 @@ def activations(log):
     return out
 
 
-def handshake(ctx, paramiko, kex, cipher, mac, hostkey, rekey, gex_pack):
+def asym_client_class(T, c2s_cipher, s2c_cipher, c2s_mac, s2c_mac):
+    """A client that offers DIFFERENT lists per direction (RFC-legal; stock paramiko offers the same list twice).
+    Transport reads `preferred_ciphers` / `preferred_macs` exactly twice per KEXINIT sent and twice per KEXINIT
+    parsed, client→server first each time: odd reads answer with the c2s list, even reads with the s2c list.
+    Everything else (derivation, activation) is the stock code of the tree under test."""
+
+    class AsymClient(T):
+        _reads = None
+
+        def _alt(self, what, c2s, s2c):
+            if self._reads is None:
+                self._reads = {"c": 0, "m": 0}
+            self._reads[what] += 1
+            return (c2s,) if self._reads[what] % 2 == 1 else (s2c,)
+
+        @property
+        def preferred_ciphers(self):
+            return self._alt("c", c2s_cipher, s2c_cipher)
+
+        @property
+        def preferred_macs(self):
+            return self._alt("m", c2s_mac, s2c_mac)
+
+    return AsymClient
+
+
+def handshake(ctx, paramiko, kex, cipher, mac, hostkey, rekey, gex_pack, asym=None):
     from tests._loop import LoopSocket
 
     def others(info, keep):
@@ -119,7 +145,10 @@ def handshake(ctx, paramiko, kex, cipher, mac, hostkey, rekey, gex_pack):
                 "macs": others(T._mac_info, mac)}
     socks, sockc = LoopSocket(), LoopSocket()
     sockc.link(socks)
-    tc = T(sockc, disabled_algorithms=disabled)
+    if asym is None:
+        tc = T(sockc, disabled_algorithms=disabled)
+    else:  # asym = (c2s cipher, s2c cipher, c2s mac, s2c mac)
+        tc = asym_client_class(T, *asym)(sockc, disabled_algorithms={"kex": disabled["kex"]})
     ts = T(socks)
     ts.add_server_key(hostkey)
     if "group-exchange" in kex:
@@ -129,6 +158,9 @@ def handshake(ctx, paramiko, kex, cipher, mac, hostkey, rekey, gex_pack):
     instrument(ts, logs)
     evc, evs = threading.Event(), threading.Event()
     case = {"kex": kex, "cipher": cipher, "mac": mac, "rekey": rekey}
+    if asym is not None:
+        case = {"kex": kex, "c2s_cipher": asym[0], "s2c_cipher": asym[1], "c2s_mac": asym[2], "s2c_mac": asym[3],
+                "rekey": rekey}
     problem = None
     try:
         ts.start_server(event=evs, server=paramiko.ServerInterface())
@@ -255,24 +287,48 @@ def run(ctx):
             ctx.dist("spec-validation")
 
     # ---------------------------------------------------------------- (b) toy hash: real _activate_* vs model
+    # The two directions are negotiated independently (RFC 4253 7.1): the direction under test gets (cipher, mac),
+    # the OTHER direction once the same and once an algorithm whose key / IV / digest sizes all differ where the
+    # tables allow it — so a size taken from the wrong direction's algorithm cannot go unnoticed.
+    def differing(table_sizes, name):
+        mine = table_sizes(name)
+        best = sorted((n for n in table_sizes.names if n != name),
+                      key=lambda n: -sum(a != b for a, b in zip(table_sizes(n), mine)))
+        top = [n for n in best if sum(a != b for a, b in zip(table_sizes(n), mine))
+               == sum(a != b for a, b in zip(table_sizes(best[0]), mine))]
+        return rng.choice(top)
+
+    def csz(n):
+        i = T._cipher_info[n]
+        return (i["key-size"], i.get("iv-size", i["block-size"]), i["block-size"], bool(i.get("is_aead", False)))
+
+    def msz(n):
+        i = T._mac_info[n]
+        return (i["class"]().digest_size, i["size"])
+
+    csz.names, msz.names = list(T._cipher_info), list(T._mac_info)
     reqs, cases = [], []
     for cipher in T._cipher_info:
         for mac in T._mac_info:
             for role in "cs":
                 for d in ("in", "out"):
-                    L = rng.choice([3, 7, 20, 32, 64])
-                    K, H, sid = rand_K(rng), rand_blob(rng), rand_blob(rng)
-                    cases.append((L, K, H, sid, role, d, cipher, mac))
-                    reqs.append("act %d %d %s %s %s %s %s %s" % (L, K, hx(H), hx(sid), role, d, cipher, mac))
+                    for asym in (False, True):
+                        L = rng.choice([3, 7, 20, 32, 64])
+                        K, H, sid = rand_K(rng), rand_blob(rng), rand_blob(rng)
+                        oc, om = (differing(csz, cipher), differing(msz, mac)) if asym else (cipher, mac)
+                        lc, rc, lmac, rmac = (oc, cipher, om, mac) if d == "in" else (cipher, oc, mac, om)
+                        cases.append((L, K, H, sid, role, d, cipher, mac, lc, rc, lmac, rmac))
+                        reqs.append("act %d %d %s %s %s %s %s %s %s %s" % (L, K, hx(H), hx(sid), role, d,
+                                                                         lc, rc, lmac, rmac))
     model = ctx.driver("C04", reqs)
-    for i, (L, K, H, sid, role, d, cipher, mac) in enumerate(cases):
+    for i, (L, K, H, sid, role, d, cipher, mac, lc, rc, lmac, rmac) in enumerate(cases):
         case = {"hash": "toy%d" % L, "K": K, "H": hx(H), "sid": hx(sid), "role": role, "dir": d,
-                "cipher": cipher, "mac": mac}
+                "local_cipher": lc, "remote_cipher": rc, "local_mac": lmac, "remote_mac": rmac}
         tt = lib_kdf.bare_transport(paramiko, server_mode=(role == "s"))
         tt.K, tt.H, tt.session_id = K, H, sid
         tt.kex_engine = FakeKex(lib_kdf.ToyHash(L))
-        tt.local_cipher = tt.remote_cipher = cipher
-        tt.local_mac = tt.remote_mac = mac
+        tt.local_cipher, tt.remote_cipher = lc, rc
+        tt.local_mac, tt.remote_mac = lmac, rmac
         tt.local_compression = tt.remote_compression = "none"
         tt._remote_ext_info = None
         log = []
@@ -297,8 +353,11 @@ def run(ctx):
                                          "none" if mk is None else hx(mk),
                                          "none" if ivarg is None else hx(ivarg),
                                          kw.get("mac_size"), kw.get("block_size"))
-        ctx.case(("b", cipher, mac, role, d, K, H, sid, L), True)
-        ctx.dist("activate:%s:%s" % (role, d))
+        ctx.case(("b", lc, rc, lmac, rmac, role, d, K, H, sid, L), True)
+        ctx.dist("activate:%s:%s:%s" % (role, d, "asymmetric" if (lc, lmac) != (rc, rmac) else "symmetric"))
+        if eng[1] != cipher:
+            ctx.fail("activate-wrong-direction-cipher", case, "engine built for %r, direction negotiated %r" % (
+                eng[1], cipher))
         if i % 97 == 0:
             ctx.sample(dict(case, out=impl))
         if model is not None and model[i] != impl:
@@ -374,11 +433,39 @@ def run(ctx):
         plan = [(k, c, macs[(i + rot) % len(macs)], i == 0) for i, (k, c) in enumerate(fixed)]
         for j in range(2):
             plan.append((rng.choice(kexes), rng.choice(ciphers), rng.choice(macs), False))
-    for kex, cipher, mac, rekey in plan:
-        case, ca, sa, problem = handshake(ctx, paramiko, kex, cipher, mac, hostkey, rekey, pack)
+    plan = [p + (None,) for p in plan]
+    # asymmetric negotiation: different cipher / MAC per direction, with different key, IV and digest sizes
+    asym_pool = [("aes128-ctr", "aes256-gcm@openssh.com", "hmac-sha1", "hmac-sha2-512"),
+                 ("aes256-cbc", "3des-cbc", "hmac-sha2-256-etm@openssh.com", "hmac-md5-96"),
+                 ("aes128-gcm@openssh.com", "aes256-ctr", "hmac-sha2-512-etm@openssh.com", "hmac-sha1-96"),
+                 ("3des-cbc", "aes192-ctr", "hmac-md5", "hmac-sha2-256")]
+    asym_pool = [a for a in asym_pool if a[0] in ciphers and a[1] in ciphers and a[2] in macs and a[3] in macs]
+    if ctx.thorough:
+        for _ in range(12):
+            c1, c2 = rng.sample(ciphers, 2)
+            m1, m2 = rng.sample(macs, 2)
+            asym_pool.append((c1, c2, m1, m2))
+        asym_plan = [(kexes[i % len(kexes)], a, i % 4 == 0) for i, a in enumerate(asym_pool)]
+    else:
+        fast = [k for k in kexes if k.startswith(("curve25519", "ecdh-sha2-nistp256", "ecdh-sha2-nistp384"))] or kexes
+        picks = [asym_pool[(ctx.seed + j) % len(asym_pool)] for j in range(min(2, len(asym_pool)))]
+        asym_plan = [(fast[(ctx.seed + j) % len(fast)], a, j == 0) for j, a in enumerate(picks)]
+    for kex, a, rekey in asym_plan:
+        plan.append((kex, a[0], a[2], rekey, a))
+    for kex, cipher, mac, rekey, asym in plan:
+        case, ca, sa, problem = handshake(ctx, paramiko, kex, cipher, mac, hostkey, rekey, pack, asym)
         ctx.dist("handshake:%s" % kex)
-        ctx.dist("handshake-cipher:%s" % cipher)
-        ctx.dist("handshake-mac:%s" % mac)
+        if asym is None:
+            ctx.dist("handshake-cipher:%s" % cipher)
+            ctx.dist("handshake-mac:%s" % mac)
+        else:
+            ctx.dist("handshake-asymmetric")
+            # the negotiation itself must have come out asymmetric, else this case tests nothing
+            got = [(a[3]["cipher"], a[3]["mac"]) for a in ca[:2] if a[1] is not None]
+            want = {("out", (asym[0], asym[2])), ("in", (asym[1], asym[3]))}
+            if {(a[0], (a[3]["cipher"], a[3]["mac"])) for a in ca[:2]} != want and problem is None:
+                from pv.core import InfraError as _IE
+                raise _IE("asymmetric client did not negotiate asymmetrically: %r (wanted %r)" % (got, asym))
         expected = 4 if rekey else 2
         cvals = [check_activation(ctx, paramiko, case, "client", a) for a in ca]
         svals = [check_activation(ctx, paramiko, case, "server", a) for a in sa]
@@ -387,7 +474,7 @@ def run(ctx):
             cs = [v for a, v in zip(ca, cvals) if a[0] == dir_c]
             ss = [v for a, v in zip(sa, svals) if a[0] == dir_s]
             for k in range(min(len(cs), len(ss))):
-                ctx.case(("d", kex, cipher, mac, label, k, repr(cs[k])), True)
+                ctx.case(("d", kex, cipher, mac, repr(asym), label, k, repr(cs[k])), True)
                 if cs[k] != ss[k]:
                     ctx.fail("peer-key-mismatch:" + label, dict(case, kex_round=k),
                              "client %r server %r" % (cs[k], ss[k]))
